@@ -10,9 +10,18 @@
    that does not depend on the differentiated variable, or depends on it only
    through sign, has tangent exactly 0 at that level (tsign puts tzero there; a
    value of older levels is lifted with tangent tzero) - for every program, every
-   nesting and both modes (instance of MixEval.nested_correct). *)
-From Coq Require Import List ZArith.
+   nesting and both modes (instance of MixEval.nested_correct).
+   PROVED (C14_registered_piecewise_constant_functions_block_flow, over the reals): floor, ceil, trunc/fix, sign and
+   the six comparisons are on the list the source registers as non-differentiable (gen/GenNograd.v, regenerated from
+   numpy_vjps.py and numpy_jvps.py on every run), and away from their jump points blocking the flow IS the derivative:
+   the function has derivative 0, so has every function of it, a program h(y, f y) differentiates as h(y, c) with
+   c = f x frozen, and y * f y differentiates to f x (x * floor x to floor x, the example in the property).  At the
+   jump points themselves the functions have no derivative; the source returns the same frozen result there (oracle). *)
+From Coq Require Import List ZArith Reals String.
 Import ListNotations.
+From Coquelicot Require Import Coquelicot.
+From AGGen Require Import GenNograd.
+From AG Require Import RealPrelude PiecewiseConst NogradTie Run14.
 From AG Require Import Toposort Tagged Tower Run08 TaggedProof TowerAlg FwdCorrect TowerRing MixInterp MixStep MixBackward MixEval.
 
 Theorem C14_nondifferentiable_returns_plain :
@@ -33,6 +42,42 @@ Theorem C14_zero_for_independent_and_piecewise_constant :
     end.
 Proof. exact nested_correct. Qed.
 Print Assumptions C14_zero_for_independent_and_piecewise_constant.
+
+Theorem C14_registered_piecewise_constant_functions_block_flow :
+  forall (name : string) (f : R -> R) (J : R -> Prop),
+    model_of name f J ->
+    In name gen_nograd
+    /\ forall x : R, ~ J x ->
+         is_derive f x 0%R
+         /\ (forall h : R -> R, is_derive (fun y => h (f y)) x 0%R)
+         /\ (forall (h : R -> R -> R) (l : R), is_derive (fun y => h y (f x)) x l -> is_derive (fun y => h y (f y)) x l)
+         /\ is_derive (fun y => (y * f y)%R) x (f x).
+Proof. exact registered_piecewise_constant_functions_block_flow. Qed.
+Print Assumptions C14_registered_piecewise_constant_functions_block_flow.
+
+Theorem C14_x_floor_x_differentiates_to_floor_x :
+  forall x : R, (forall z : Z, x <> IZR z) -> is_derive (fun y => (y * rfloor y)%R) x (rfloor x).
+Proof. exact x_floor_x_differentiates_to_floor. Qed.
+Print Assumptions C14_x_floor_x_differentiates_to_floor_x.
+
+(* at a rational p/q that is not an integer, the derivative of x * floor x is the integer p / q of Z division - the
+   number the correspondence run computes and compares with autograd's gradient at the float p/q *)
+Theorem C14_x_floor_x_at_rationals :
+  forall p q : Z, (0 < q)%Z -> zis_int p q = false ->
+    is_derive (fun y => (y * rfloor y)%R) (IZR p / IZR q)%R (IZR (zfloor p q)).
+Proof. exact x_floor_x_Q. Qed.
+Print Assumptions C14_x_floor_x_at_rationals.
+
+(* the integer functions the correspondence run evaluates (and compares with NumPy's values and autograd's gradients of
+   x * f(x)) are the real functions of the theorems above at every rational point, for every rational constant *)
+Theorem C14_integer_model_computes_the_real_functions :
+  forall (code : nat) (pc qc p q : Z), (0 < qc)%Z -> (0 < q)%Z ->
+    rmodel code (IZR pc / IZR qc)%R (IZR p / IZR q)%R = IZR (zmodel code pc qc p q).
+Proof. exact zmodel_computes_rmodel. Qed.
+Print Assumptions C14_integer_model_computes_the_real_functions.
+
+Example C14_floor_at_5_halves : is_derive (fun y => (y * rfloor y)%R) (5 / 2)%R 2%R.
+Proof. exact x_floor_x_at_2_5. Qed.
 
 (* in the tower semantics an output independent of the variable, and sign of anything, have tangent 0 *)
 Example C14_spec_zero :
